@@ -7,7 +7,7 @@ import z3
 from pyvc.values import *  # noqa
 from pyvc.contracts import FunctionContract, FunctionUnit, LemmaUnit, LeanUnit, summary_function
 from pyvc.engine import Obligation
-from .kinds import Kind, Outcome, KIND, KIND_CLASSES, Ident
+from .kinds import Kind, Outcome, KIND, KIND_CLASSES, Ident, type_of_kind
 
 PROP = "C14"
 
@@ -143,6 +143,7 @@ class SetContract(FunctionContract):
         "is_state_variable": VFunc("is_state_variable", lambda ctx, it, a, k: VBool(is_state_variable(ctx.deref(a[0]).t))),
         "print": VFunc("print", lambda ctx, it, a, k: NONE),
         "repr": VFunc("repr", lambda ctx, it, a, k: VPy("<repr>")),
+        "type": VFunc("type", type_of_kind),
     })
 
     def ensures(self, st):
@@ -209,10 +210,15 @@ class SetUnit(FunctionUnit):
         return axioms, obs, info
 
 
-def units():
+def table_units():
     uu = UnifyUnit(UnifyContract())
-    return [uu, SetUnit(SetContract(uu)),
-            LeanUnit("lemma:L-CHAOTIC", "lemmas/LChaotic.lean", ["chaotic_unique"])]
+    return [uu, SetUnit(SetContract(uu))]
+
+
+def units():
+    from . import finder
+    return table_units() + finder.units() + [
+        LeanUnit("lemma:L-CHAOTIC", "lemmas/LChaotic.lean", ["chaotic_unique"])]
 
 
 LEVEL = "proof"
@@ -225,6 +231,17 @@ ASSUMPTIONS = [
     "assert statements execute (python is not run with -O)",
     "exceptions raised by unify (ValueError, AssertionError) are the outcome 'undefined'",
     "isinstance over the closed class family Boolean/Integer/Scalar/Array/UserType read from dagrt/data.py",
+]
+ASSUMPTIONS += [
+    "SymbolKindFinder.__call__ (driver): work lists are abstracted to multisets of (phase, statement) occurrences; the table "
+    "to a version counter that SymbolKindTable.set increments exactly when it changes the table (its own proved "
+    "postcondition); every inference attempt (kim(...), kim.map_generic_call(...)) may succeed or raise UnableToInferKind "
+    "and only reads the table; an item counts as processed successfully iff no attempt made while it was being processed raised",
+    "the link from 'the returned table is a common fixed point of all statement steps' (proved for the driver) and 'join is "
+    "inflationary, commutative, associative' (proved for unify / set) to 'the table is independent of the presentation "
+    "order' is L-CHAOTIC (Lean); monotonicity of one statement's transfer step in the table (kind inference of an expression "
+    "is monotone in the kinds of its variables) is assumed, not proved",
+    "termination of the driver is not proved",
 ]
 EXPLANATION = ("unify is executed symbolically from the real source over an ADT of kinds with uninterpreted "
                "user-type identifiers; its exits are folded into the outcome function U and the lattice laws are "
